@@ -285,7 +285,10 @@ let () =
   (* sbfailtwice = /repo HEAD today: known finding pppoe-vpp-failure-after-teardown open, everything else fixed *)
   let td = (variant = "repaired" || variant = "heldanswer" || variant = "sbfailtwice")
   and hl = (variant = "repaired" || variant = "noteardown" || variant = "sbfailtwice")
-  and sf = (variant <> "sbfailtwice") in
+  and sf = (variant <> "sbfailtwice")
+  (* unnamedlease = /repo HEAD today: known finding pppoe-dhcpv6-rereserve-drops-pool-name open, everything else fixed *)
+  and nm = (variant <> "unnamedlease") in
+  let td = td || variant = "unnamedlease" and hl = hl || variant = "unnamedlease" in
   List.iteri (fun idx line ->
     let il = if idx < Array.length impl then impl.(idx) else "" in
     match tokens line with
@@ -293,7 +296,7 @@ let () =
     | "pppoe" :: rest ->
       let flav = flavour_of il in
       if flav <> "cur" && flav <> "rfc" then print_endline ("badflavour:" ^ flav) else
-      print_endline (try run_pppoe rep { vrep = true; vrfc = (flav = "rfc"); vtd = td; vhl = hl; vsf = sf } flav rest with e -> "modelerr:" ^ Printexc.to_string e)
+      print_endline (try run_pppoe rep { vrep = true; vrfc = (flav = "rfc"); vtd = td; vhl = hl; vsf = sf; vnm = nm } flav rest with e -> "modelerr:" ^ Printexc.to_string e)
     | ["radius"; fb; srv; at] ->
       let fb = (fb = "1") in
       let srv = (match srv with "accept" -> SrvAccept | "reject" -> SrvReject | "other" -> SrvOtherCode | _ -> SrvNoAnswer) in
